@@ -161,3 +161,7 @@ def expected(m):
         exp[("charge",)] = Approx(float(m["charge"]), atol=0.0)
         exp[("spinpol",)] = Exact(m["mult"] - 1)
     return exp
+
+
+# Classes that are generated but NOT asserted by C03 (triage decisions, see DESIGN.md section 7): class -> reason
+NOT_ASSERTED = {'label_suffix': 'label suffixes: not verified against the Gaussian manual offline', 'atom_params': 'per-atom parameters: outside the documented scope of the reader', 'comma_separated': 'separator variants: judgement', 'freeze_code': 'freeze codes: judgement', 'comments': 'inline comments: judgement', 'charge_multiplicity': 'omission (line not loaded), not a wrong value'}
